@@ -558,12 +558,34 @@ func fsAccess(path string, write bool, site string) {
 	}
 }
 
+// OnFS, when set, is called before every woven file system access (also outside the scheduler): the harness's
+// seam for changing the environment at exactly that moment (a source that grows, shrinks or disappears between two
+// accesses of the code under test).
+var OnFS func(path string, write bool, site string)
+
+func fsHook(path string, write bool, site string) {
+	if OnFS != nil {
+		OnFS(path, write, site)
+	}
+}
+
 // FSW / FSR are identity functions on a path argument.
-func FSW(path string, site string) string { fsAccess(path, true, site); return path }
-func FSR(path string, site string) string { fsAccess(path, false, site); return path }
+func FSW(path string, site string) string {
+	fsHook(path, true, site)
+	fsAccess(path, true, site)
+	return path
+}
+
+func FSR(path string, site string) string {
+	fsHook(path, false, site)
+	fsAccess(path, false, site)
+	return path
+}
 
 func OpenFile(name string, flag int, perm os.FileMode, site string) (*os.File, error) {
-	fsAccess(name, flag&(os.O_WRONLY|os.O_RDWR|os.O_CREATE|os.O_TRUNC|os.O_APPEND) != 0, site)
+	w := flag&(os.O_WRONLY|os.O_RDWR|os.O_CREATE|os.O_TRUNC|os.O_APPEND) != 0
+	fsHook(name, w, site)
+	fsAccess(name, w, site)
 	return os.OpenFile(name, flag, perm)
 }
 
